@@ -361,8 +361,10 @@ std::string run_case(Session& S, const std::string& line, uint32_t serial) {
   C.w()->data()->slot_initial_hash() = [cp]() { if (!cp->dl.info()->is_open()) cp->storerr = true; };   // receive_storage_error closed it
 
   std::string out;
+  bool removed = false;
   for (auto& t : ops) {
     char o = t[0];
+    if (removed) return "BADCASE op after z";
     switch (o) {
       case 'O': C.dl.open(0); break;
       case 'C': case 'Q':
@@ -405,20 +407,29 @@ std::string run_case(Session& S, const std::string& line, uint32_t serial) {
       case 's': C.put_back_all(); C.dl.hash_stop(); break;
       case 'X': C.collect(true); C.put_back_all(); C.dl.close(0); break;
       case 'x': C.put_back_all(); C.dl.close(0); break;
+      case 'z': C.put_back_all(); C.dl.close(0); torrent::download_remove(C.dl); removed = true; break;   // close + remove at once, racing the disk thread
       default: return "BADCASE op";
     }
     if (!out.empty()) out += ";";
-    out += C.snapshot();
+    out += removed ? std::string("removed") : C.snapshot();
   }
   out += " # " + C.disk_tokens(false) + " ierr=0";
 
   // ---- teardown and the oracle's extras
-  C.collect(true);
-  C.put_back_all();
-  C.dl.close(0);
-  S.step();
-  std::string leak = C.snapshot();
-  torrent::download_remove(C.dl);
+  std::string leak;
+  if (!removed) {
+    C.collect(true);
+    C.put_back_all();
+    C.dl.close(0);
+    S.step();
+    leak = C.snapshot();
+    torrent::download_remove(C.dl);
+  } else {
+    std::ostringstream o;
+    o << "o0 k0 c0 p0 u-1 b- r- d0 e0 s0 rf0 bl0 mp0 hq" << torrent::ThreadMain::thread_main()->hash_queue()->size() << " fo0 mb"
+      << torrent::runtime::memory_manager()->memory_block_count() << " mu" << torrent::runtime::memory_manager()->memory_usage();
+    leak = o.str();
+  }
   S.step();
   std::string post = C.disk_tokens(true);
   size_t entries_post = C.tree_entries();
